@@ -268,6 +268,41 @@ pub(crate) fn encode_internal<W: Write, S: Borrow<Schema> + Debug>(
                 .into())
             }
         }
+        // Validation accepts a map for a record schema (an object converted from JSON): write its
+        // entries as the record's fields, in the order of the schema
+        Value::Map(items) if matches!(schema, Schema::Record(_)) => {
+            let Schema::Record(RecordSchema {
+                ref name,
+                fields: ref schema_fields,
+                ..
+            }) = *schema
+            else {
+                unreachable!("the guard checks for a record schema")
+            };
+            let record_namespace = name.namespace().or(enclosing_namespace);
+            let mut written_bytes = 0;
+            for schema_field in schema_fields.iter() {
+                let value = match items.get(&schema_field.name) {
+                    Some(value) => value,
+                    None if schema_field.is_nullable() => &Value::Null,
+                    None => {
+                        return Err(Details::NoEntryInLookupTable(
+                            schema_field.name.clone(),
+                            format!("{:?}", items.keys()),
+                        )
+                        .into());
+                    }
+                };
+                written_bytes += encode_internal(
+                    value,
+                    &schema_field.schema,
+                    names,
+                    record_namespace,
+                    writer,
+                )?;
+            }
+            Ok(written_bytes)
+        }
         Value::Map(items) => {
             if let Schema::Map(ref inner) = *schema {
                 if !items.is_empty() {
